@@ -86,6 +86,15 @@ def other_cases(rng, thorough):
             unterminated = prec is not None and prec >= 0 and prec <= len(s) and rng.random() < 0.7
             args.append("s:%s:%d" % (fmt(s), 0 if unterminated else 1))
             out.append("Pf %s %s" % (fmt([ord(x) for x in f]), " ".join(args)))
+    # widths, precisions and strings around and beyond the 8-bit boundary (and one beyond 16 bits): counts that do not fit a byte
+    for w in [127, 128, 255, 256, 257, 300, 1000]:
+        for f in ["%%%dd" % w, "%%-%dd|" % w, "%%0%dd" % w, "%%.%dd" % w, "%%%d.%dx" % (w, w - 3), "%%%ds" % w, "%%-%ds|" % w, "%%%dc" % w, "%%#%do" % w]:
+            arg = "s:%s:1" % fmt([97 + (i % 26) for i in range(rng.choice([0, 3, w - 1, w, w + 1]))]) if "s" in f[-2:] else "i:" + fmt(le8(rng.choice([0, -1, 42, 2 ** 63])))
+            out.append("Pf %s %s" % (fmt([ord(x) for x in f]), arg))
+        out.append("Pf %s i:%s i:%s i:%s" % (fmt([ord(x) for x in "%*.*d"]), fmt(le8(w)), fmt(le8(w - 1)), fmt(le8(-7))))
+        out.append("Pf %s i:%s i:%s" % (fmt([ord(x) for x in "%*d"]), fmt(le8(-w)), fmt(le8(7))))
+    out.append("Pf %s i:%s" % (fmt([ord(x) for x in "%70000d"]), fmt(le8(5))))
+    out.append("Pf %s s:%s:1" % (fmt([ord(x) for x in "%.300s"]), fmt([65 + (i % 26) for i in range(700)])))
     for p in [0, 1, 0xdeadbeef, 2 ** 47 - 1, 2 ** 64 - 1, 0x1000, 0xabcdef0123]:
         for f in ["%p", "%20p", "%-20p", "%3p"]:
             out.append("Pf %s i:%s" % (fmt([ord(x) for x in f]), fmt(le8(p))))
